@@ -342,6 +342,18 @@ class ExprMixin:
             if a.kind == "set" or b.kind == "set":
                 return self.set_difference(self.coerce(a, Spec("set", VAL), st), self.coerce(b, Spec("set", VAL), st), st)
         if isinstance(op, ast.Mult):
+            if (a.kind == "seq" and b.kind in ("int", "bool")) or (b.kind == "seq" and a.kind in ("int", "bool")):
+                sq, n = (a, b) if a.kind == "seq" else (b, a)
+                # list repetition of a one-element list: n copies (none for n <= 0)
+                r = Q._fresh_sq(st, "rep")
+                nn = as_int(n, st)
+                i = fresh("ri", IntS)
+                from .core import Obligation
+                self.collector.add(Obligation(f"{self.kernel.qualname}#model.list_repetition_singleton@{node.lineno}", "safety", st.hyps(),
+                                              Q.Length(sq.t) == 1, f"line {node.lineno}", self.kernel.qualname))
+                st.assume(Q.Length(r) == z3.If(nn > 0, nn, 0))
+                st.assume(z3.ForAll([i], z3.Implies(z3.And(0 <= i, i < Q.Length(r)), Q.At(r, i) == Q.At(sq.t, 0)), patterns=[Q.At(r, i)]))
+                return Sym("seq", r, sq.spec)
             if a.kind == "int" and b.kind == "int":
                 if z3.is_int_value(a.t) or z3.is_int_value(b.t):
                     return S_int(a.t * b.t)
